@@ -14,9 +14,10 @@ NOT_BUILT_REASON = "check not built yet in this round (see DESIGN.md section 8, 
 
 def main():
     checks, na = [], []
+    ready = set(open(os.path.join(HERE, "tools", "ready.txt")).read().split())
     for pid in ALL:
         path = os.path.join(HERE, "mc", "props", pid.lower() + ".py")
-        if not os.path.exists(path):
+        if not os.path.exists(path) or pid not in ready:
             na.append({"property_id": pid, "reason": NOT_BUILT_REASON})
             continue
         m = importlib.import_module(f"mc.props.{pid.lower()}")
